@@ -79,7 +79,8 @@ std::string Exp::describe() const {
 		break; }
 	case NOTIFY: s = "NOTIFY fetch=" + fetchid.dump() + " " + event + " path=" + json_escape(path) + (check_value && has_value ? " value=" + value.dump() : ""); break;
 	case ROUTED: s = "ROUTED method=" + json_escape(path) + " params=" + params.dump(); break;
-	case CLOSE: s = "CLOSE"; break;
+	case CLOSE: s = "CLOSE"; if (ws_status) s += " with close frame status " + (ws_status == 10027 ? std::string("1002 or 1007") : std::to_string(ws_status)); else if (need_frame) s += " after a close frame"; break;
+	case PONG: s = "PONG payload=" + hexenc(path); break;
 	}
 	if (!why.empty()) s += " [" + why + "]";
 	if (optional) s += " (optional)";
@@ -535,7 +536,7 @@ bool Model::on_message(int c, const std::string &text) {
 	return alive;
 }
 
-void Model::on_peer_gone(int c, bool expect_close) {
+void Model::on_peer_gone(int c, bool expect_close, int ws_status, bool need_frame, const std::string &close_prop) {
 	auto it = peers.find(c);
 	if (it == peers.end() || !it->second.alive) return;
 	Peer &p = it->second;
@@ -563,7 +564,7 @@ void Model::on_peer_gone(int c, bool expect_close) {
 	}
 	if (had_sub) host->probe("owner_disconnect_with_subscribers");
 	if (expect_close) {
-		Exp e; e.kind = Exp::CLOSE; e.prop = "C05"; e.group = group_ctr; e.rank = 9; e.why = "connection must be released";
+		Exp e; e.kind = Exp::CLOSE; e.prop = close_prop; e.group = group_ctr; e.rank = 9; e.why = "connection must be released"; e.ws_status = ws_status; e.need_frame = need_frame;
 		host->expect(c, e);
 	}
 }
